@@ -32,6 +32,7 @@ inductive Op where
   | map | zip | fold | clone      -- closures take ownership of what they are given and return fresh elements
   | append | prepend | popBack | popFront | split (k : Nat) | concat | remove (i : Nat) | swapRemove (i : Nat)
   | flatten2 | unflatten (n : Nat)  -- regroup: ownership-wise a concat / an even split into rows
+  | collect (n : Nat)             -- `try_from_iter` of length `n` from an iterator draining the held elements
   | roundtrip                     -- to/from native array, tuple, Vec, Box: the same elements in the same order
   | dropArr | dropHeld
 deriving Repr, DecidableEq
@@ -208,6 +209,12 @@ def step (p : Pool) : Op → Pool
     | a :: rest =>
       if 0 < n ∧ a.length = 2 * n then { p with arrays := a.take n :: a.drop n :: rest } else p
     | [] => p
+  | .collect n =>
+    -- the source's size hint does not reveal its length (`(0, Some(len))`), so too-long inputs
+    -- reach the surplus probe
+    match tryFromIter libFrags iterSrc n (0, some p.held.length) (Consumer.ofList p.held) with
+    | (evs, .ok arr) => { p with arrays := arr :: p.arrays, held := [], dropped := p.dropped ++ drops evs }
+    | (evs, _) => { p with held := [], dropped := p.dropped ++ drops evs }
   | .roundtrip => p
   | .dropArr =>
     match p.arrays with
